@@ -182,6 +182,7 @@ def extOf (tb : Tabs) : Ext where
 def errName : SerErr → String
   | .keyMustBeAString => "KeyMustBeAString"
   | .floatKeyMustBeFinite => "FloatKeyMustBeFinite"
+  | .numberOutOfRange => "NumberOutOfRange"
 
 def showRes (r : Except SerErr (List Bytes)) : String :=
   match r with
